@@ -92,6 +92,11 @@ var sandwiches = [][2]string{
 	{"$a = \"x{$", "}\";\n$b = 1;\n$c"},
 	{"#!/usr/bin/env origami\n", "\n$b = 1;\n$c"},
 	{"#!/x", "\n<?php\n$b = 1;\n$c"},
+	// the window directly after an interpolated variable, at the very end of the string / heredoc body
+	{"$a = \"v=$o", "\";\n$b = 1;\n$c"},
+	{"$a = <<<AB\nv=$o", "\nAB;\n$b = 1;\n$c"},
+	// a multi-line string ending a statement WITHOUT a semicolon (the lexer inserts one)
+	{"$a = \"x", "\ny\"\n$b = 1\n$c"},
 }
 
 func H_lex_spans_mid() {
@@ -101,6 +106,18 @@ func H_lex_spans_mid() {
 	toks := lx.Tokenize(src)
 	symx.Reach("lexed")
 	checkSpans(toks, src)
+}
+
+// H_lex_mid: the sandwiches of H_lex_spans_mid through both tokenizers, for the no-crash /
+// termination clause only (a window in the MIDDLE of a source, closing delimiters after it).
+func H_lex_mid() {
+	n := symx.Param("n", 1)
+	lo, hi := symx.Param("lo", 0), symx.Param("hi", len(sandwiches))
+	k := lo + symx.Choose("ctx", hi-lo)
+	src := sandwiches[k][0] + symx.String("w", n) + sandwiches[k][1]
+	_ = lx.Tokenize(src)
+	_ = lx.TokenizeTemplate("<?php " + src + " ?>\n<p>")
+	symx.Reach("lexed")
 }
 
 // H_lex_template: <?php template mode.
@@ -203,13 +220,14 @@ var snippets = []string{
 	"namespace N { $a = 1; function nf() { return 2; } }",
 	"class DB<T> { public T $v; } $x = DB<int>(); $y = new DB<string>(); $z = func_num_args();",
 	"class Pr<K, V> { public K $k; } $q = new Pr<int, string>(); $p = Pr<int, string>();",
+	"$r = ($a like A) ? 1 : 2; $s = ($b instanceof A); $t = ($c ?? 1) + ($d);",
 }
 
 // whole lexemes for the pool mode of H_snip: special variables (they parse to dedicated nodes),
 // keywords and multi-byte operators
 var lexemePool = []string{
 	"$_GET", "$this", "$GLOBALS", "$argv", "$_SERVER", "&$r", "...$r", "static", "self", "parent", "null", "new", "fn", "function",
-	"?->", "::", "=>", "??", "**", "<=>", "<<<", "?>", "<?php", "/*", "#[", "@{", "${", "\\", "like", "spawn", "yield", "int", "class", "void", "mixed", "in",
+	"?->", "::", "=>", "??", "**", "<=>", "<<<", "?>", "<?php", "/*", "#[", "@{", "${", "\\", "like", "spawn", "yield", "int", "class", "void", "mixed", "in", "\"\"", "\"x\"", "as",
 }
 
 func H_snip() {
